@@ -247,6 +247,23 @@ def st_case(draw):
     if draw(st.booleans()) and (route == "ctor" or fields != "none"):
         t["tz"] = list(draw(G.st_tz()))
     kw = draw(G.st_point_kw(cm, forms=("hms",)))
+    # adversarial placement: start where the designator does NOT exist in the
+    # current month / year, so the search has to skip over it
+    if draw(st.booleans()):
+        y = draw(G.st_year())
+        dn = None
+        if t.get("dom", 0) >= 29:
+            short = [mo for mo in range(1, 13) if R.mlens(cm, y)[mo - 1] < t["dom"]]
+            if short:
+                mo = draw(st.sampled_from(short))
+                dn = R.dn_from_cal(cm, y, mo, draw(st.integers(
+                    1, R.mlens(cm, y)[mo - 1])))
+        elif t.get("doy", 0) > R.ylen(cm, y):
+            dn = R.dn_from_ord(cm, y, draw(st.integers(1, R.ylen(cm, y))))
+        elif t.get("week", 0) > R.weeks_in_year(cm, y):
+            dn = R.weekyear_start(cm, y) + draw(st.integers(0, 360))
+        if dn is not None:
+            kw = draw(G.st_point_kw(cm, forms=("hms",), dn=dn))
     # place p on / next to a match half of the time
     how = draw(st.sampled_from(["free", "free", "on", "before", "after"]))
     if how != "free":
